@@ -1,0 +1,82 @@
+//! Verification hooks (only compiled with the `verif_hooks` cargo feature).
+//!
+//! A thin public wrapper around the crate-private [`CircuitBuilder`], so that sequences of gate
+//! requests can be driven directly, without going through the language front end.
+
+use std::collections::HashMap;
+
+use crate::circuit::{Circuit, CircuitBuilder, CircuitBuilderOptions, GateIndex};
+
+/// Public wrapper around the crate-private circuit builder.
+pub struct Builder(CircuitBuilder);
+
+impl Builder {
+    /// Creates a builder for the given number of input bits per party.
+    pub fn new(input_gates: Vec<usize>, cache_gates: bool) -> Self {
+        Self(CircuitBuilder::new(
+            input_gates,
+            HashMap::new(),
+            CircuitBuilderOptions { cache_gates },
+        ))
+    }
+
+    /// Requests `x ^ y`.
+    pub fn push_xor(&mut self, x: GateIndex, y: GateIndex) -> GateIndex {
+        self.0.push_xor(x, y)
+    }
+
+    /// Requests `x & y`.
+    pub fn push_and(&mut self, x: GateIndex, y: GateIndex) -> GateIndex {
+        self.0.push_and(x, y)
+    }
+
+    /// Requests `!x`.
+    pub fn push_not(&mut self, x: GateIndex) -> GateIndex {
+        self.0.push_not(x)
+    }
+
+    /// Requests `x | y`.
+    pub fn push_or(&mut self, x: GateIndex, y: GateIndex) -> GateIndex {
+        self.0.push_or(x, y)
+    }
+
+    /// Requests `x == y`.
+    pub fn push_eq(&mut self, x: GateIndex, y: GateIndex) -> GateIndex {
+        self.0.push_eq(x, y)
+    }
+
+    /// Requests `if s { x0 } else { x1 }`.
+    pub fn push_mux(&mut self, s: GateIndex, x0: GateIndex, x1: GateIndex) -> GateIndex {
+        self.0.push_mux(s, x0, x1)
+    }
+
+    /// Requests a full adder, returning (sum, carry).
+    pub fn push_adder(
+        &mut self,
+        x: GateIndex,
+        y: GateIndex,
+        carry: GateIndex,
+    ) -> (GateIndex, GateIndex) {
+        self.0.push_adder(x, y, carry)
+    }
+
+    /// Requests a bitonic merge of the elements (compared on their first `bits` bits).
+    pub fn push_bitonic_merger(
+        &mut self,
+        bits: usize,
+        ascending: bool,
+        bitonic: &mut [Vec<GateIndex>],
+    ) {
+        self.0.push_bitonic_merger(bits, ascending, bitonic)
+    }
+
+    /// Requests a bitonic sort of the elements (compared on their first `bits` bits).
+    pub fn push_bitonic_sorter(&mut self, bits: usize, input: &mut [Vec<GateIndex>]) {
+        self.0.push_bitonic_sorter(bits, input)
+    }
+
+    /// Builds the circuit with the given output wires (prepended by the panic record).
+    pub fn build(self, output_gates: Vec<GateIndex>) -> Circuit {
+        self.0.build(output_gates)
+    }
+}
